@@ -87,6 +87,29 @@ func c08Build(rng *rand.Rand, nHot, nCold, rounds, hotBlock int) *c08Hist {
 		}
 		h.HotVals = append(h.HotVals, vals)
 	}
+	// wrappers: an anonymous hot type also occurs as a member (value, slice element) of an outer type,
+	// so that the same type is analysed now at a nested position, now on its own, in either order
+	for i, n := 0, len(h.HotTypes); i < n && i < 2*nHot; i++ {
+		t := h.HotTypes[i]
+		if t.Name() != "" || i%2 != 0 {
+			continue
+		}
+		ex := reflect.StructTag(`valid:"exist" a:"exist" b:"required|m_wrap" A:"exist"`)
+		wt := reflect.StructOf([]reflect.StructField{
+			{Name: "Lead", Type: gen.TString, Tag: `valid:"required|m_lead" a:"to=1~2|m_lead_a"`},
+			{Name: "Detail", Type: t, Tag: ex},
+			{Name: "List", Type: reflect.SliceOf(t), Tag: ex},
+		})
+		vals := []reflect.Value{}
+		for j := 0; j < 3; j++ {
+			w := reflect.New(wt)
+			w.Elem().Field(1).Set(h.HotVals[i][j].Elem())
+			w.Elem().Field(2).Set(reflect.Append(reflect.MakeSlice(reflect.SliceOf(t), 0, 1), h.HotVals[i][(j+1)%3].Elem()))
+			vals = append(vals, w)
+		}
+		h.HotTypes = append(h.HotTypes, wt)
+		h.HotVals = append(h.HotVals, vals)
+	}
 	nHot = len(h.HotTypes)
 	for i := 0; i < nCold; i++ {
 		// distinct tag text => distinct reflect.Type: a cheap way to have more types than any cache holds
